@@ -41,17 +41,19 @@ def classify(T, L, listed, strings):
     g = T.trainer.grammar
     ng = T.trainer.ngram
     by_len = [s for s in strings if len(s) == ng]
-    zero_rem = [s for s in strings if len(s) > ng and g[s[:ng - 1]]["ip_level"] == L]
+    # (.get: on a directory whose files do not belong together the guesser emits strings the trainer has no entry for)
+    zero_rem = [s for s in strings if len(s) > ng and g.get(s[:ng - 1], {}).get("ip_level") == L]
     return by_len, zero_rem
 
 
-def keyspace_oracle(T, E, replay_base, dist):
-    """Per listed level: file value vs number of distinct strings emitted."""
+def keyspace_oracle(T, E, replay_base, dist, pre=""):
+    """Per listed level: file value vs number of distinct strings emitted.  pre: inserted after "C18:" in the signatures
+    (the oracle on a ruleset name that was trained before: "retrained:")."""
     vio = []
     fk = T.file_keyspace()
     fp = dict(T.file_prob())
     if sorted(fk) != sorted(T.keyspace.items()):
-        vio.append({"sig": "C18:file-differs", "what": "omen_keyspace.txt %r is not the Counter calc_omen_keyspace returned %r"
+        vio.append({"sig": "C18:" + pre + "file-differs", "what": "omen_keyspace.txt %r is not the Counter calc_omen_keyspace returned %r"
                     % (fk[:5], list(T.keyspace.items())[:5]), "replay": dict(replay_base, level=None)})
     dmax = T.default_max_keyspace
     for L, ks in fk:
@@ -75,7 +77,7 @@ def keyspace_oracle(T, E, replay_base, dist):
             else:
                 kind = "mismatch"
             ex = list(dict.fromkeys(by_len + zero_rem + sorted(distinct)))[:3]
-            vio.append({"sig": "C18:keyspace-" + kind,
+            vio.append({"sig": "C18:" + pre + "keyspace-" + kind,
                         "what": "level %d: omen_keyspace.txt says %d, the MarkovCracker emits %d distinct strings "
                                 "(%d of length = ngram = %d, %d whose IP level already is the whole level), e.g. %r; ngram %d, "
                                 "training list of %d (%s)"
@@ -88,12 +90,12 @@ def keyspace_oracle(T, E, replay_base, dist):
             got = fp.get(L)
             if got != want:
                 # attributable to the keyspace when that is already wrong
-                sig = "C18:prob-follows-wrong-keyspace" if ks != len(distinct) else "C18:prob-mismatch"
+                sig = "C18:" + pre + ("prob-follows-wrong-keyspace" if ks != len(distinct) else "prob-mismatch")
                 vio.append({"sig": sig, "what": "level %d: pcfg_omen_prob.txt has %r, (count %d / N %d) / real keyspace %d = %r"
                             % (L, got, T.levels_count[L], T.num_valid, len(distinct), want),
                             "replay": dict(replay_base, level=L)})
         elif L in fp:
-            vio.append({"sig": "C18:prob-mismatch", "what": "level %d has a probability %r but produces no string" % (L, fp[L]),
+            vio.append({"sig": "C18:" + pre + "prob-mismatch", "what": "level %d has a probability %r but produces no string" % (L, fp[L]),
                         "replay": dict(replay_base, level=L)})
     # levels the guesser produces strings for but the trainer does not list (not a violation of the
     # statement, which quantifies over listed levels; measured)
@@ -175,6 +177,195 @@ def explore(ctx, cfg, sc_dir, idx, budget, dist):
     return T, E, vio
 
 
+def default_max_keyspace():
+    import inspect
+    from lib_trainer.omen.evaluate_password import calc_omen_keyspace
+    return inspect.signature(calc_omen_keyspace).parameters["max_keyspace"].default
+
+
+def describe(steps):
+    return " then ".join("-n %d -a %d -e %s (%d passwords)" % (c["ngram"], c["alphabet_size"], c["encoding"], len(c["passwords"]))
+                         for c in steps)
+
+
+def compare_with_fresh(retrained_omen, fresh_omen, replay_base, steps, pre):
+    """Every file a training into a NEW directory writes must be in the re-trained directory with the same bytes."""
+    vio = []
+    have, want = ol.omen_files(retrained_omen), ol.omen_files(fresh_omen)
+    for name, data in want.items():
+        if have.get(name) != data:
+            got = have.get(name)
+            vio.append({"sig": "C18:%sfile-differs-from-fresh:%s" % (pre, name),
+                        "what": "one ruleset name trained %d times (%s): Omen/%s is %r, the same training into a new directory "
+                                "writes %r (the guesser reads the level / keyspace / probability files of the ruleset with these settings)"
+                                % (len(steps), describe(steps), name, None if got is None else got[:120], data[:120]),
+                        "replay": dict(replay_base, level=None)})
+    return vio
+
+
+def history_check(steps, sc_dir, tag, budget, dist, level=None, max_keyspace=None):
+    """The real trainer (in-process, as run_trainer drives it) run for every step onto ONE ruleset directory, a guessing
+    session between the trainings; then the oracle of the property on the LAST result as it is on disk, and the comparison
+    with a training of the last step into a new directory."""
+    d = os.path.join(sc_dir, "h" + tag)
+    T = None
+    for i, cfg in enumerate(steps):
+        try:
+            T = ol.Trained(cfg, d, max_keyspace=max_keyspace if i == len(steps) - 1 else None)
+        except ZeroDivisionError:
+            T = None
+            continue
+        if T.usable and i < len(steps) - 1:
+            ol.session_on(T)
+    if T is None or not T.usable:
+        return None
+    T.default_max_keyspace = default_max_keyspace()
+    replay_base = {"training": steps[-1], "previous": steps[:-1]}
+    pre = "retrained:"
+    vio = []
+    G, g_err = T.load_guesser()
+    E = {}
+    if G is None:
+        dist["guesser_not_loaded"] += 1
+        vio.append({"sig": "C18:%sguesser-cannot-load" % pre, "what": "one ruleset name trained %d times (%s): the guesser cannot load "
+                    "the Omen directory: %s" % (len(steps), describe(steps), g_err), "replay": dict(replay_base, level=None)})
+    else:
+        todo = [level] if level is not None else [L for L in sorted(T.keyspace) if T.keyspace[L] <= budget["cap"] // 2]
+        E = ol.enumerate_sets(G, todo, cap=budget["cap"], seconds=budget["per_level"], total_seconds=budget["per_model"])
+        for L in list(E):
+            if E[L][3]:
+                vio.append({"sig": "C18:%sguesser-raises" % pre, "what": "one ruleset name trained %d times (%s): MarkovCracker raises "
+                            "at level %d: %s" % (len(steps), describe(steps), L, E[L][3]), "replay": dict(replay_base, level=L)})
+                E.pop(L)
+    for v in keyspace_oracle(T, E, replay_base, dist, pre):
+        v["what"] = "one ruleset name trained %d times (%s), the last result: %s" % (len(steps), describe(steps), v["what"])
+        vio.append(v)
+    try:
+        F = ol.Trained(steps[-1], os.path.join(sc_dir, "f" + tag))
+        if F.usable:
+            vio += compare_with_fresh(T.omen_dir, F.omen_dir, replay_base, steps, pre)
+    except ZeroDivisionError:
+        pass
+    return T, E, vio
+
+
+def cli_history_check(items, budget, dist):
+    """The same with trainer.py itself: separate processes writing to Rules/<one name> of a scratch copy of the code tree
+    (-n / -a / -e / -c differ between the runs), and the last step once more onto a new name."""
+    import subprocess
+    code = common.copy_code_tree(common.scratch())
+    env = common.subenv()
+    env["PYTHONPATH"] = code
+    sc = common.scratch()
+
+    def start(cfg, name, tf):
+        with open(tf, "wb") as f:
+            for p in cfg["passwords"]:
+                f.write(p.encode(cfg["encoding"], errors="surrogateescape") + b"\n")
+        cmd = [common.PY, "trainer.py", "-t", tf, "-r", name, "-e", cfg["encoding"], "-n", str(cfg["ngram"]),
+               "-a", str(cfg["alphabet_size"]), "-c", repr(cfg.get("coverage", 0.6))]
+        return subprocess.Popen(cmd, cwd=code, env=env, stdin=subprocess.DEVNULL, stdout=subprocess.DEVNULL, stderr=subprocess.PIPE)
+
+    def finish(pr):
+        try:
+            _, err = pr.communicate(timeout=300)
+        except subprocess.TimeoutExpired:
+            pr.kill()
+            _, err = pr.communicate()
+        return pr.returncode, err.decode("utf-8", "replace")[-300:]
+    vio = []
+    fresh = [start(steps[-1], "F%d" % j, os.path.join(sc, "f%d.txt" % j)) for j, steps in enumerate(items)]
+    ok = [True] * len(items)
+    for i in range(max(len(s) for s in items) if items else 0):
+        procs = [(j, start(steps[i], "H%d" % j, os.path.join(sc, "h%d_%d.txt" % (j, i)))) for j, steps in enumerate(items) if i < len(steps)]
+        for j, pr in procs:
+            rc, err = finish(pr)
+            omen = os.path.join(code, "Rules", "H%d" % j, "Omen")
+            if i == len(items[j]) - 1:
+                ok[j] = rc == 0 and os.path.isfile(os.path.join(omen, "omen_keyspace.txt"))
+            elif os.path.isfile(os.path.join(omen, "config.txt")):
+                # a guessing session on the ruleset between the two trainings
+                T0 = ol.Trained.__new__(ol.Trained)
+                T0.omen_dir, T0.base_dir, T0.cfg = omen, os.path.dirname(omen), items[j][i]
+                ol.session_on(T0)
+    for j, pr in enumerate(fresh):
+        rc, err = finish(pr)
+        steps = items[j]
+        fomen = os.path.join(code, "Rules", "F%d" % j, "Omen")
+        homen = os.path.join(code, "Rules", "H%d" % j, "Omen")
+        replay_base = {"training": steps[-1], "previous": steps[:-1], "cli": True}
+        pre = "retrained-cli:"
+        dist["cli_histories"] += 1
+        if rc != 0 or not os.path.isfile(os.path.join(fomen, "omen_keyspace.txt")):
+            dist["cli_unusable_lists"] += 1
+            continue
+        if not ok[j]:
+            vio.append({"sig": "C18:%strainer-failed" % pre, "what": "trainer.py onto a ruleset name that was trained before (%s) fails, "
+                        "onto a new name it works" % describe(steps), "replay": dict(replay_base, level=None)})
+            continue
+        vio += compare_with_fresh(homen, fomen, replay_base, steps, pre)
+        # the oracle of the property on the re-trained directory as it is on disk (tables / counts from the in-process trainer)
+        try:
+            T = ol.Trained(steps[-1], os.path.join(sc, "ip%d" % j))
+        except ZeroDivisionError:
+            continue
+        if not T.usable:
+            continue
+        T.default_max_keyspace = default_max_keyspace()
+        T.omen_dir = homen
+        G, g_err = T.load_guesser()
+        if G is None:
+            vio.append({"sig": "C18:%sguesser-cannot-load" % pre, "what": "trainer.py run %d times onto one ruleset name (%s): the guesser "
+                        "cannot load the Omen directory: %s" % (len(steps), describe(steps), g_err), "replay": dict(replay_base, level=None)})
+            continue
+        todo = [L for L in sorted(T.keyspace) if T.keyspace[L] <= budget["cap"] // 2]
+        E = ol.enumerate_sets(G, todo, cap=budget["cap"], seconds=budget["per_level"], total_seconds=budget["per_model"])
+        E = {L: e for L, e in E.items() if not e[3]}
+        for v in keyspace_oracle(T, E, replay_base, dist, pre):
+            v["what"] = "trainer.py run %d times onto one ruleset name (%s), the last result: %s" % (len(steps), describe(steps), v["what"])
+            vio.append(v)
+    return vio
+
+
+def retrain_histories(ctx, sc_dir, budget, dist, seen):
+    """Rulesets with a history: one ruleset name trained two or three times."""
+    vio = []
+    nontrivial = 0
+    n = ctx.scale(24, 300)
+    kinds = ["mixed", "big", "len_eq_ngram", "nonascii", "long", "single_len", "dup_heavy", "sparse_alphabet"]
+    for i in range(n):
+        h = ol.gen_retraining(ctx.rng, kinds[i % len(kinds)] if i < 2 * len(kinds) else None,
+                              variant="ngram" if i % 3 == 0 else None)
+        small = ctx.rng.choice([0, 1, 3, 10, 50, 400])
+        r = history_check(h["steps"], sc_dir, str(i), budget, dist, max_keyspace=small)
+        if r is None:
+            dist["unusable_histories"] += 1
+            continue
+        T, E, v = r
+        vio += v
+        vio += small_cutoff_oracle(T, E, {"training": h["steps"][-1], "previous": h["steps"][:-1]}, dist)
+        dist["histories"] += 1
+        for var in h["variants"]:
+            dist["history_" + var] += 1
+        for L in T.keyspace:
+            key = ("history", json.dumps(h["steps"], sort_keys=True), L)
+            if key not in seen and L in E and E[L][1] and E[L][2]:
+                seen.add(key)
+                nontrivial += 1
+    # trainer.py itself (separate processes)
+    items = []
+    for j in range(ctx.scale(4, 12)):
+        h = ol.gen_retraining(ctx.rng, ["mixed", "big", "long", "nonascii", "dup_heavy"][j % 5], cli=True)
+        steps = [dict(c, alphabet_size=max(c["alphabet_size"], 2)) for c in h["steps"]]
+        if ctx.rng.random() < 0.4:
+            steps[0] = dict(steps[0], coverage=ctx.rng.choice([0.0, 1.0, 0.3]))
+        if j == 0:
+            steps = [dict(steps[-1], ngram=4, max_len=21), dict(steps[-1], ngram=5, max_len=21)]     # -n 4 then -n 5
+        items.append(steps)
+    vio += cli_history_check(items, budget, dist)
+    return vio, nontrivial
+
+
 def run(ctx):
     import extract_consts
     consts = extract_consts.main()
@@ -187,6 +378,8 @@ def run(ctx):
             "strings_compared": 0, "levels_not_enumerated": 0, "cutoff_levels": 0, "cutoff_runs": 0,
             "levels_with_duplicates": 0, "unlisted_levels_with_strings": 0, "guesser_not_loaded": 0,
             "dominant_len_eq_ngram": 0, "single_length": 0, "length_cost_zero": 0, "keyspace_hist": {}}
+    from collections import Counter
+    dist = Counter(dist)            # (the history stage counts under keys of its own)
     seen, nontrivial = set(), 0
     missing_consts = set()
     kinds = ["len_eq_ngram", "single_len", "big", "mixed", "long", "dup_heavy", "sparse_alphabet", "nonascii"]
@@ -231,6 +424,14 @@ def run(ctx):
             # a constant of a failed extractor plugin is missing: no correspondence case, the oracle still ran
             missing_consts.add(str(e))
 
+    import time
+    t_h = time.time()
+    hv, hn = retrain_histories(ctx, sc_dir, budget, dist, seen)
+    dist["history_stage_seconds"] = round(time.time() - t_h, 1)
+    vio += hv
+    nontrivial += hn
+    dist = dict(dist)
+
     per = 5
     shards = []
     for s in range(0, len(cases), per):
@@ -264,7 +465,11 @@ def run(ctx):
             "max_keyspace on the warm and on a cold cache; the files written by the real writer; per listed level the value of "
             "omen_keyspace.txt against the number of DISTINCT strings the real MarkovCracker emits at that target level "
             "(levels above the size/time cap are counted as not enumerated) and pcfg_omen_prob.txt against (count/N)/that "
-            "number; an evaluation = one listed level compared; non-trivial = the level really produces at least one string; "
+            "number; RULESETS WITH A HISTORY: one ruleset name trained two or three times by the real trainer (in-process as "
+            "run_trainer drives it, and trainer.py as separate processes on a scratch copy of the tree) with another n-gram size (4 "
+            "then 5, 3 then 4, ...), alphabet size, encoding, coverage, list, or the same again, a guesser / scorer session in between; "
+            "the same oracle on the LAST result as it is on disk, and every Omen file (config.txt included) byte-identical to a "
+            "training of the last step into a new directory; an evaluation = one listed level compared; non-trivial = the level really produces at least one string; "
             "distinct by (tables, level)")
     if vio:
         vio = shrink_all(ctx, vio)
@@ -272,10 +477,24 @@ def run(ctx):
             "corr": corr, "violations": vio, "dist": dist}
 
 
-def check_one(cfg, level, max_keyspace, budget):
-    dist = {k: 0 for k in ["levels_not_enumerated", "cutoff_levels", "levels_compared", "strings_compared",
-                           "levels_with_duplicates", "unlisted_levels_with_strings", "guesser_not_loaded", "cutoff_runs"]}
+def check_one(cfg, level, max_keyspace, budget, previous=None, cli=False):
+    from collections import Counter
+    dist = Counter()
     sc_dir = common.scratch()
+    if previous:
+        # a ruleset name with a history: the earlier trainings first, onto the same directory
+        steps = list(previous) + [cfg]
+        if cli:
+            vio = cli_history_check([steps], budget, dist)
+        else:
+            r = history_check(steps, sc_dir, "r", budget, dist, level=level, max_keyspace=max_keyspace)
+            if r is None:
+                return []
+            T, E, vio = r
+            vio += small_cutoff_oracle(T, E, {"training": cfg, "previous": list(previous)}, dist)
+        if level is not None:
+            vio = [v for v in vio if v["replay"].get("level") in (level, None)]
+        return vio
     try:
         T = ol.Trained(cfg, os.path.join(sc_dir, "r"), max_keyspace=max_keyspace)
     except ZeroDivisionError:
@@ -309,11 +528,15 @@ def shrink_all(ctx, vio, seconds_each=2.0, max_sigs=4):
     front = []
     for sig, v in list(by.items())[:max_sigs]:
         mk = v["replay"].get("max_keyspace", 10)
+        prev = v["replay"].get("previous")
+        if v["replay"].get("cli"):
+            front.append(v)         # separate processes: not shrunk
+            continue
 
-        def still(c, sig=sig, mk=mk):
-            return any(x["sig"] == sig for x in check_one(c, None, mk, small))
+        def still(c, sig=sig, mk=mk, prev=prev):
+            return any(x["sig"] == sig for x in check_one(c, None, mk, small, previous=prev))
         cfg2 = ol.shrink_training(v["replay"]["training"], still, seconds_each)
-        hits = [x for x in check_one(cfg2, None, mk, small) if x["sig"] == sig]
+        hits = [x for x in check_one(cfg2, None, mk, small, previous=prev) if x["sig"] == sig]
         front.append(hits[0] if hits else v)
     return front + vio
 
@@ -323,4 +546,4 @@ def replay(ctx, data):
     if "training" not in inp:
         return []
     return check_one(inp["training"], inp.get("level"), inp.get("max_keyspace", 10),
-                     {"cap": 200000, "per_level": 20.0, "per_model": 60.0})
+                     {"cap": 200000, "per_level": 20.0, "per_model": 60.0}, previous=inp.get("previous"), cli=bool(inp.get("cli")))
